@@ -12,7 +12,7 @@ from vlib.core import Failure
 PROP = "C02"
 RULE = (
     "a case is a CONFIG (maxsize 1|2, block, 2-3 request threads with 1-2 requests each, optionally one thread calling "
-    "close(), an outcome script with at most one failing attempt: reset | 503 | connect refused | a reply that is not HTTP (the socket stays open until the pool closes it), retries on | off, pool_timeout none | set; or responses with chunked bodies whose second part arrives late, released after 5 bytes; or HEAD requests consumed with stream()) plus "
+    "close(), an outcome script with at most one failing attempt: reset | 503 | connect refused | a reply that is not HTTP (the socket stays open until the pool closes it), retries on | off, pool_timeout none | set; or responses with chunked bodies whose second part arrives late, released after 5 bytes; or HEAD requests consumed with stream(); or streamed requests of which the first is redirected by a 302 without a body) plus "
     "a SCHEDULE. Real threads run the real pool code on the in-memory network under vlib/sched.py, which owns every context "
     "switch: yield points are every line of _get_conn/_put_conn/_new_conn/close/_close_pool_connections/release_conn/"
     "HTTPResponse.close (thorough: also urlopen and _error_catcher, opcode granularity in _get_conn/_put_conn) and every "
@@ -94,6 +94,8 @@ def _validate(cfg):
         raise core.InvalidCase
     if not isinstance(cfg.get("partial", False), bool) or (cfg.get("partial") and cfg.get("fault") is not None):
         raise core.InvalidCase
+    if not isinstance(cfg.get("redirect_empty", False), bool) or (cfg.get("redirect_empty") and (cfg.get("fault") is not None or cfg.get("partial") or cfg.get("head_stream"))):
+        raise core.InvalidCase
     if not isinstance(cfg.get("head_stream", False), bool) or (cfg.get("head_stream") and (cfg.get("fault") is not None or cfg.get("partial"))):
         raise core.InvalidCase
     if cfg.get("fault") not in (None, "rreset", "503", "refused", "garbage") or cfg.get("fault_at", 0) not in (0, 1, 2) or cfg.get("retries", "retry") not in ("retry", "none"):
@@ -115,10 +117,13 @@ def run_once(cfg, decisions=None, random_seq=None, deep=False, opcode=False):
     elif cfg["fault"] == "garbage":
         # not an HTTP reply: unlike after a reset, http.client leaves the socket open and the pool has to close it
         script.append({"o": "garbage"})
+    redirect_empty = bool(cfg.get("redirect_empty"))  # every thread's first request is answered 302 with an empty body; responses are streamed
     head_stream = bool(cfg.get("head_stream"))  # every request but a thread's last one is a HEAD whose (chunked-announced) response is consumed with stream()
     partial = bool(cfg.get("partial"))
     # partial: chunked bodies whose second part is sent late; every request but a thread's last one reads 5 bytes and releases
     # (the late part looks like an HTTP response: a connection that is wrongly reused serves it to the next request)
+    if redirect_empty:
+        script = [servers.ok(302, body_len=0, headers=[["Location", "/landing"]])]
     srv = servers.ScriptServer(script, default=servers.ok(framing="chunked", late=9, body=TRAP_BODY, late_marker="HTTP/1.1 200 OK") if partial else (servers.ok(body_len=30, framing="chunked") if head_stream else servers.ok(body_len=30)))
 
     class Pool(urllib3.HTTPConnectionPool):
@@ -167,7 +172,12 @@ def run_once(cfg, decisions=None, random_seq=None, deep=False, opcode=False):
                 for k in range(n):
                     target = "/t%dr%d" % (ti, k)
                     try:
-                        if head_stream and k < n - 1:
+                        if redirect_empty:
+                            r = pool.urlopen("GET", target, pool_timeout=cfg["pool_timeout"], preload_content=False)
+                            got = r.read()
+                            out.append(("ok", r.status, got, target if not got.startswith(b"</landing") else "/landing"))
+                            del r
+                        elif head_stream and k < n - 1:
                             r = pool.urlopen("HEAD", target, pool_timeout=cfg["pool_timeout"], preload_content=False)
                             got = b"".join(r.stream(16))  # reading to the end gives the connection back
                             out.append(("ok", r.status, got, target))
@@ -304,6 +314,7 @@ def configs(tier):
     for maxsize, block, threads in itertools.product((1, 2), (True, False), ([2, 1], [2, 2])):
         out.append({"maxsize": maxsize, "block": block, "threads": threads, "closer": False, "fault": None, "fault_at": 0, "pool_timeout": None, "partial": True})
         out.append({"maxsize": maxsize, "block": block, "threads": threads, "closer": False, "fault": None, "fault_at": 0, "pool_timeout": None, "head_stream": True})
+        out.append({"maxsize": maxsize, "block": block, "threads": threads, "closer": False, "fault": None, "fault_at": 0, "pool_timeout": None, "redirect_empty": True})
     # the same with retries switched off: the scripted fault ends its request, the placeholder goes back while others wait
     for maxsize, block, threads, fault, pto in itertools.product((1, 2), (True, False), ([1, 1], [2, 1], [1, 1, 1]), ("rreset", "refused", "garbage"), (None, 0.05)):
         if (not block and pto is not None) or (maxsize == 2 and threads == [1, 1]):
